@@ -9,6 +9,8 @@ structure SharedOK (s : State) : Prop where
   open_ : ∀ g, s.reader = some g → s.closed.contains g = false
   freshR : ∀ g, s.reader = some g → g < s.nextGen
   freshC : ∀ g, g ∈ s.closed → g < s.nextGen
+  /-- after a failed load there is no reader (no half-initialised reader is ever installed) -/
+  errNil : s.readerErr = true → s.reader = none
 
 structure Inv (s : State) : Prop where
   bad : s.bad = false
@@ -28,12 +30,16 @@ theorem inv_init (kinds : List Kind) : Inv (init kinds) where
     simp only [init, List.getElem?_map, Option.map_eq_some_iff] at hi
     obtain ⟨k, _, rfl⟩ := hi
     simp [holdsW] at hw
-  shared := ⟨by simp [init], by simp [init], by simp [init]⟩
+  shared := ⟨by simp [init], by simp [init], by simp [init], by simp [init]⟩
   known := by
     intro i t hi
     simp only [init, List.getElem?_map, Option.map_eq_some_iff] at hi
     obtain ⟨k, _, rfl⟩ := hi
     simp
+
+theorem inv_initF (kinds : List Kind) (failAt : List Nat) : Inv (initF kinds failAt) := by
+  have h := inv_init kinds
+  exact ⟨h.bad, h.excl, ⟨h.shared.open_, h.shared.freshR, h.shared.freshC, h.shared.errNil⟩, h.known⟩
 
 theorem canW_spec {ts : List Thread} (h : canW ts = true) {j : Nat} {t : Thread} (hj : ts[j]? = some t) :
     holdsW t.pc = false ∧ holdsR t.pc = false := by
@@ -55,7 +61,8 @@ theorem inv_update {s s' : State} {i : Nat} {t : Thread} (hI : Inv s) (ht : s.th
     (hbad : s'.bad = false)
     (hW : holdsW pc' = true → holdsW t.pc = true ∨ canW s.threads = true)
     (hR : holdsR pc' = true → holdsR t.pc = true ∨ canR s.threads = true)
-    (hShared : (s'.reader = s.reader ∧ s'.closed = s.closed ∧ s'.nextGen = s.nextGen) ∨
+    (hShared : (s'.reader = s.reader ∧ s'.closed = s.closed ∧ s'.nextGen = s.nextGen ∧
+        s'.readerErr = s.readerErr) ∨
       (holdsW t.pc = true ∧ SharedOK s'))
     (hSelf : (pc' = .fast → s'.reader.isSome = true) ∧ (∀ g, pc' = .inUse g → s'.reader = some g) ∧
       (∀ g, pc' ≠ .consuming g)) : Inv s' := by
@@ -101,16 +108,16 @@ theorem inv_update {s s' : State} {i : Nat} {t : Thread} (hI : Inv s) (ht : s.th
           · have := canR_spec h ha'; rw [hwa] at this; cases this
     · exact hI.excl _ _ _ _ ha' hb' hab hwa
   · -- shared part
-    rcases hShared with ⟨h1, h2, h3⟩ | ⟨_, h⟩
+    rcases hShared with ⟨h1, h2, h3, h4⟩ | ⟨_, h⟩
     · exact ⟨by rw [h1, h2]; exact hI.shared.open_, by rw [h1, h3]; exact hI.shared.freshR,
-        by rw [h2, h3]; exact hI.shared.freshC⟩
+        by rw [h2, h3]; exact hI.shared.freshC, by rw [h1, h4]; exact hI.shared.errNil⟩
     · exact h
   · -- what the threads know
     intro a ta ha
     rcases hget a ta ha with ⟨_, rfl⟩ | ⟨hai, ha'⟩
     · exact hSelf
     · have hk := hI.known a ta ha'
-      rcases hShared with ⟨h1, _, _⟩ | ⟨hw, _⟩
+      rcases hShared with ⟨h1, _, _, _⟩ | ⟨hw, _⟩
       · rw [h1]; exact hk
       · -- the mover held the write lock: nobody else was holding the read lock
         have hold := hI.excl _ _ _ _ ht ha' (fun h => hai h.symm) hw
@@ -135,32 +142,46 @@ theorem inv_step {s : State} (hI : Inv s) (i : Nat) : Inv (step true false s i) 
         split
         · rename_i hc
           exact inv_update hI ht .rl1 rfl hI.bad (by simp [holdsW]) (fun _ => Or.inr hc)
-            (Or.inl ⟨rfl, rfl, rfl⟩) (by simp)
+            (Or.inl ⟨rfl, rfl, rfl, rfl⟩) (by simp)
         · exact hI
       | rl1 =>
         simp only
         split
         · rename_i hs
           exact inv_update hI ht .fast rfl hI.bad (by simp [holdsW]) (by simp [holdsR])
-            (Or.inl ⟨rfl, rfl, rfl⟩) ⟨fun _ => hs, by simp, by simp⟩
-        · exact inv_update hI ht .wantW rfl hI.bad (by simp [holdsW]) (by simp [holdsR])
-            (Or.inl ⟨rfl, rfl, rfl⟩) (by simp)
+            (Or.inl ⟨rfl, rfl, rfl, rfl⟩) ⟨fun _ => hs, by simp, by simp⟩
+        · split
+          · exact inv_update hI ht .idle rfl hI.bad (by simp [holdsW]) (by simp [holdsR])
+              (Or.inl ⟨rfl, rfl, rfl, rfl⟩) (by simp)
+          · exact inv_update hI ht .wantW rfl hI.bad (by simp [holdsW]) (by simp [holdsR])
+              (Or.inl ⟨rfl, rfl, rfl, rfl⟩) (by simp)
       | wantW =>
         simp only
         split
         · rename_i hc
           exact inv_update hI ht .w rfl hI.bad (fun _ => Or.inr hc) (by simp [holdsR])
-            (Or.inl ⟨rfl, rfl, rfl⟩) (by simp)
+            (Or.inl ⟨rfl, rfl, rfl, rfl⟩) (by simp)
         · exact hI
       | w =>
         simp only
         split
         · exact inv_update hI ht .wDone rfl hI.bad (by simp [holdsW]) (by simp [holdsR])
-            (Or.inl ⟨rfl, rfl, rfl⟩) (by simp)
-        · -- NewBinaryReader: a fresh generation
+            (Or.inl ⟨rfl, rfl, rfl, rfl⟩) (by simp)
+        · rename_i hnone
+          split
+          · -- an earlier load failed: return r.readerErr
+            exact inv_update hI ht .wDoneE rfl hI.bad (by simp [holdsW]) (by simp [holdsR])
+              (Or.inl ⟨rfl, rfl, rfl, rfl⟩) (by simp)
+          rename_i hnoerr
+          split
+          · -- NewBinaryReader fails: r.readerErr = err, no reader is installed
+            refine inv_update hI ht .wDoneE rfl hI.bad (by simp [holdsW]) (by simp [holdsR])
+              (Or.inr ⟨by simp [holdsW], ?_⟩) (by simp)
+            exact ⟨by simp [hnone], by simp [hnone], hI.shared.freshC, fun _ => hnone⟩
+          -- NewBinaryReader: a fresh generation
           refine inv_update hI ht .wDone rfl hI.bad (by simp [holdsW]) (by simp [holdsR])
             (Or.inr ⟨by simp [holdsW], ?_⟩) (by simp)
-          refine ⟨?_, ?_, ?_⟩
+          refine ⟨?_, ?_, ?_, by simp [hnoerr]⟩
           · intro g hg
             simp only [Option.some.injEq] at hg
             subst hg
@@ -179,22 +200,35 @@ theorem inv_step {s : State} (hI : Inv s) (i : Nat) : Inv (step true false s i) 
             omega
       | wDone =>
         exact inv_update hI ht .wantR2 rfl hI.bad (by simp [holdsW]) (by simp [holdsR])
-          (Or.inl ⟨rfl, rfl, rfl⟩) (by simp)
+          (Or.inl ⟨rfl, rfl, rfl, rfl⟩) (by simp)
       | wantR2 =>
         simp only
         split
         · rename_i hc
           exact inv_update hI ht .recheck rfl hI.bad (by simp [holdsW]) (fun _ => Or.inr hc)
-            (Or.inl ⟨rfl, rfl, rfl⟩) (by simp)
+            (Or.inl ⟨rfl, rfl, rfl, rfl⟩) (by simp)
         · exact hI
+      | wDoneE =>
+        exact inv_update hI ht .wantR2E rfl hI.bad (by simp [holdsW]) (by simp [holdsR])
+          (Or.inl ⟨rfl, rfl, rfl, rfl⟩) (by simp)
+      | wantR2E =>
+        simp only
+        split
+        · rename_i hc
+          exact inv_update hI ht .recheckE rfl hI.bad (by simp [holdsW]) (fun _ => Or.inr hc)
+            (Or.inl ⟨rfl, rfl, rfl, rfl⟩) (by simp)
+        · exact hI
+      | recheckE =>
+        exact inv_update hI ht .idle rfl hI.bad (by simp [holdsW]) (by simp [holdsR])
+          (Or.inl ⟨rfl, rfl, rfl, rfl⟩) (by simp)
       | recheck =>
         simp only [Bool.true_and]
         split
         · exact inv_update hI ht .idle rfl hI.bad (by simp [holdsW]) (by simp [holdsR])
-            (Or.inl ⟨rfl, rfl, rfl⟩) (by simp)
+            (Or.inl ⟨rfl, rfl, rfl, rfl⟩) (by simp)
         · rename_i hs
           exact inv_update hI ht .fast rfl hI.bad (by simp [holdsW]) (by simp [holdsR])
-            (Or.inl ⟨rfl, rfl, rfl⟩)
+            (Or.inl ⟨rfl, rfl, rfl, rfl⟩)
             ⟨fun _ => by cases hr : s.reader <;> simp_all, by simp, by simp⟩
       | fast =>
         have hsome := hk.1 rfl
@@ -205,13 +239,13 @@ theorem inv_step {s : State} (hI : Inv s) (i : Nat) : Inv (step true false s i) 
           have hopen := hI.shared.open_ g hg
           simp only [hopen, Bool.false_eq_true, if_false]
           exact inv_update hI ht (.inUse g) rfl hI.bad (by simp [holdsW]) (by simp [holdsR])
-            (Or.inl ⟨rfl, rfl, rfl⟩) ⟨by simp, by intro g' h; cases h; exact hg, by simp⟩
+            (Or.inl ⟨rfl, rfl, rfl, rfl⟩) ⟨by simp, by intro g' h; cases h; exact hg, by simp⟩
       | inUse g =>
         have hg := hk.2.1 g rfl
         have hopen := hI.shared.open_ g hg
         simp only [hopen, hg, bne_self_eq_false, Bool.or_self, Bool.false_eq_true, if_false]
         exact inv_update hI ht .idle rfl hI.bad (by simp [holdsW]) (by simp [holdsR])
-          (Or.inl ⟨hg.symm, rfl, rfl⟩) (by simp)
+          (Or.inl ⟨hg.symm, rfl, rfl, rfl⟩) (by simp)
       | consuming g => exact absurd rfl (hk.2.2 g)
       | uW => exact hI
       | uDone => exact hI
@@ -223,29 +257,29 @@ theorem inv_step {s : State} (hI : Inv s) (i : Nat) : Inv (step true false s i) 
         split
         · rename_i hc
           exact inv_update hI ht .uW rfl hI.bad (fun _ => Or.inr hc) (by simp [holdsR])
-            (Or.inl ⟨rfl, rfl, rfl⟩) (by simp)
+            (Or.inl ⟨rfl, rfl, rfl, rfl⟩) (by simp)
         · exact hI
       | uW =>
         simp only
         split
         · exact inv_update hI ht .uDone rfl hI.bad (by simp [holdsW]) (by simp [holdsR])
-            (Or.inl ⟨rfl, rfl, rfl⟩) (by simp)
+            (Or.inl ⟨rfl, rfl, rfl, rfl⟩) (by simp)
         · rename_i g hg
           split
           · -- Close and forget the reader
             refine inv_update hI ht .uDone rfl hI.bad (by simp [holdsW]) (by simp [holdsR])
               (Or.inr ⟨by simp [holdsW], ?_⟩) (by simp)
-            refine ⟨by simp, by simp, ?_⟩
+            refine ⟨by simp, by simp, ?_, by simp⟩
             intro g' hg'
             simp only [List.mem_cons] at hg'
             rcases hg' with rfl | h
             · exact hI.shared.freshR _ hg
             · exact hI.shared.freshC _ h
           · exact inv_update hI ht .uDone rfl hI.bad (by simp [holdsW]) (by simp [holdsR])
-              (Or.inl ⟨rfl, rfl, rfl⟩) (by simp)
+              (Or.inl ⟨rfl, rfl, rfl, rfl⟩) (by simp)
       | uDone =>
         exact inv_update hI ht .idle rfl hI.bad (by simp [holdsW]) (by simp [holdsR])
-          (Or.inl ⟨rfl, rfl, rfl⟩) (by simp)
+          (Or.inl ⟨rfl, rfl, rfl, rfl⟩) (by simp)
       | rl1 => exact hI
       | fast => exact hI
       | wantW => exact hI
@@ -253,6 +287,9 @@ theorem inv_step {s : State} (hI : Inv s) (i : Nat) : Inv (step true false s i) 
       | wDone => exact hI
       | wantR2 => exact hI
       | recheck => exact hI
+      | wDoneE => exact hI
+      | wantR2E => exact hI
+      | recheckE => exact hI
       | inUse g => exact hI
       | consuming g => exact hI
       | pR => exact hI
@@ -263,11 +300,11 @@ theorem inv_step {s : State} (hI : Inv s) (i : Nat) : Inv (step true false s i) 
         split
         · rename_i hc
           exact inv_update hI ht .pR rfl hI.bad (by simp [holdsW]) (fun _ => Or.inr hc)
-            (Or.inl ⟨rfl, rfl, rfl⟩) (by simp)
+            (Or.inl ⟨rfl, rfl, rfl, rfl⟩) (by simp)
         · exact hI
       | pR =>
         exact inv_update hI ht .idle rfl hI.bad (by simp [holdsW]) (by simp [holdsR])
-          (Or.inl ⟨rfl, rfl, rfl⟩) (by simp)
+          (Or.inl ⟨rfl, rfl, rfl, rfl⟩) (by simp)
       | rl1 => exact hI
       | fast => exact hI
       | wantW => exact hI
@@ -275,6 +312,9 @@ theorem inv_step {s : State} (hI : Inv s) (i : Nat) : Inv (step true false s i) 
       | wDone => exact hI
       | wantR2 => exact hI
       | recheck => exact hI
+      | wDoneE => exact hI
+      | wantR2E => exact hI
+      | recheckE => exact hI
       | inUse g => exact hI
       | consuming g => exact hI
       | uW => exact hI
@@ -283,5 +323,36 @@ theorem inv_step {s : State} (hI : Inv s) (i : Nat) : Inv (step true false s i) 
 theorem inv_run {s : State} (hI : Inv s) : ∀ (schedule : List Nat), Inv (run true false s schedule)
   | [] => hI
   | i :: is => inv_run (inv_step hI i) is
+
+/-! ### failed loads -/
+
+/-- a failed load is remembered for ever, and NewBinaryReader is not called again -/
+theorem err_sticky_step (b a : Bool) (s : State) (i : Nat) (h : s.readerErr = true) :
+    (step b a s i).readerErr = true ∧ (step b a s i).loads = s.loads ∧
+    (step b a s i).loadFails = s.loadFails := by
+  unfold step
+  cases ht : s.threads[i]? with
+  | none => exact ⟨h, rfl, rfl⟩
+  | some t =>
+    obtain ⟨kind, pc⟩ := t
+    cases kind <;> cases pc <;> simp only <;> (repeat' split) <;> simp_all
+
+theorem err_sticky_run (b a : Bool) : ∀ (sched : List Nat) (s : State), s.readerErr = true →
+    (run b a s sched).readerErr = true ∧ (run b a s sched).loads = s.loads ∧
+    (run b a s sched).loadFails = s.loadFails
+  | [], _, h => ⟨h, rfl, rfl⟩
+  | i :: is, s, h => by
+    have h1 := err_sticky_step b a s i h
+    have h2 := err_sticky_run b a is (step b a s i) h1.1
+    exact ⟨h2.1, h2.2.1.trans h1.2.1, h2.2.2.trans h1.2.2⟩
+
+/-- the environment is not changed by the code -/
+theorem failAt_step (b a : Bool) (s : State) (i : Nat) : (step b a s i).failAt = s.failAt := by
+  unfold step
+  cases ht : s.threads[i]? with
+  | none => rfl
+  | some t =>
+    obtain ⟨kind, pc⟩ := t
+    cases kind <;> cases pc <;> simp only <;> (repeat' split) <;> rfl
 
 end Thanos.LazyReader
